@@ -17,6 +17,10 @@ except Exception:
 for p in props:
     pid = p["id"]
     path = os.path.join(HERE, "props", pid.lower() + ".py")
+    CLAIMED = json.load(open(os.path.join(VERIF, "tools/claimed.json")))
+    if pid not in CLAIMED:
+        na.append({"property_id": pid, "reason": NOT_YET.get(pid, "not claimed yet: the check for this property is still being built/integrated (plan in DESIGN.md section 5)")})
+        continue
     if not os.path.exists(path):
         na.append({"property_id": pid, "reason": NOT_YET.get(pid, "not claimed: no Lean model/theorems/correspondence for this property are committed yet (see DESIGN.md section 5 for the plan)")})
         continue
